@@ -33,6 +33,10 @@ class RefStack:
                 lo, hi = -np.inf, np.inf
             elif spec[0] == "RescaleAction":
                 lo, hi = float(spec[1]), float(spec[2])
+            elif spec[0] == "HalfBoxHigh":
+                hi = np.inf
+            elif spec[0] == "HalfBoxLow":
+                lo = -np.inf
         return lo, hi
 
     def outer_action_bounds(self):
@@ -50,6 +54,10 @@ class RefStack:
                 m, M = float(spec[1]), float(spec[2])
                 # new bounds [m, M] map affinely onto the bounds below [lo, hi]
                 a = lo + (a - m) * (hi - lo) / (M - m)
+            elif spec[0] == "HalfBoxHigh":
+                a = np.minimum(a, 1.0)
+            elif spec[0] == "HalfBoxLow":
+                a = np.maximum(a, -1.0)
             elif spec[0] == "TransformAction":
                 if self.kind in ("box", "boxscalar"):
                     a = -a
